@@ -187,4 +187,9 @@ pub struct ReplayFile {
     pub original_ops: usize,
     #[serde(default)]
     pub note: String,
+    /// Set when the violation depends on what EARLIER runs left in the process (a static in the
+    /// system under test): the replay then re-executes the worker's slice of run indices
+    /// `offset, offset+stride, ..` up to and including `run` in one process.
+    #[serde(default)]
+    pub slice: Option<(u64, u64)>,
 }
